@@ -23,6 +23,8 @@ pub enum Kind {
     Diverge,
     /// `execute_unsafe` inside a pre-grown region.
     Static,
+    /// The k-th allocation request during execution fails (forked child).
+    AllocFail,
 }
 
 impl Kind {
@@ -33,6 +35,7 @@ impl Kind {
             Kind::IoFault => "iofault",
             Kind::Diverge => "diverge",
             Kind::Static => "static",
+            Kind::AllocFail => "allocfail",
         }
     }
 
@@ -43,6 +46,7 @@ impl Kind {
             "iofault" => Kind::IoFault,
             "diverge" => Kind::Diverge,
             "static" => Kind::Static,
+            "allocfail" => Kind::AllocFail,
             _ => return None,
         })
     }
@@ -186,6 +190,9 @@ fn expect_clean(v: &mut Verdict, o: &Outcome, what: &str) -> Option<bool> {
     if o.alloc.size_mismatch > 0 {
         v.fail("dealloc-layout", 0, format!("{}: a block was freed with a different layout than it was requested with", what));
     }
+    if o.alloc.overflow > 0 {
+        v.add("guard_arena_overflow_requests", o.alloc.overflow);
+    }
     match &o.result {
         ExecResult::Returned(f) => Some(*f),
         ExecResult::Error(e) => {
@@ -229,6 +236,7 @@ pub fn evaluate(c: &Check) -> Verdict {
         Kind::IoFault => eval_iofault(c, &mut v),
         Kind::Diverge => eval_diverge(c, &mut v),
         Kind::Static => eval_static(c, &mut v),
+        Kind::AllocFail => eval_allocfail(c, &mut v),
     }
     v
 }
@@ -576,7 +584,76 @@ fn eval_static(c: &Check, v: &mut Verdict) {
     if expect_clean(v, &o, "execute_unsafe").is_some() {
         expect_equal(v, &o.events, &r.events, "execute_unsafe");
         if o.pregrown_survived == Some(false) {
-            v.fail("region-replaced", 0, "the pre-allocated tape block was freed/replaced during an unchecked run".into());
+            v.fail(
+                "region-replaced",
+                0,
+                format!(
+                    "the pre-allocated tape block {:x?} was freed/replaced during an unchecked run; blocks (addr,size,freed) in request order: {:x?}; reference excursion [{}, {}]",
+                    o.pregrown_tape, o.blocks, r.lo, r.hi
+                ),
+            );
         }
+    }
+}
+
+fn eval_allocfail(c: &Check, v: &mut Verdict) {
+    use crate::isolate::{run_forked, ChildEnd};
+    let r = reference(c, 0, false);
+    note_ref(v, &r);
+    if r.status != Status::Halted || r.canon_steps > c.exec_cap {
+        v.nontrivial = false;
+        return;
+    }
+    let case = with_mode(&c.case, c.case.mode, Fault::None, r.events.len() + 64);
+    let end = run_forked(
+        || {
+            let o = exec::execute(&case);
+            let res = match &o.result {
+                ExecResult::Returned(_) => "returned",
+                ExecResult::Panic(_) | ExecResult::CreatePanic(_) => "panic",
+                _ => "error",
+            };
+            format!("{} {} {}", res, o.events.len(), o.alloc.failed)
+        },
+        std::time::Duration::from_secs(10),
+    );
+    v.executions += 1;
+    v.nontrivial = true;
+    match end {
+        ChildEnd::Exited(p) => {
+            let f: Vec<&str> = p.split_whitespace().collect();
+            let failed: u64 = f.get(2).and_then(|x| x.parse().ok()).unwrap_or(0);
+            match f.first().copied() {
+                Some("panic") => v.bump("ended_by_panic"),
+                Some("returned") if failed == 0 => {
+                    v.bump("fault_not_reached");
+                    v.nontrivial = false;
+                }
+                Some("returned") => {
+                    v.bump("fired_alloc_failure");
+                    v.fail(
+                        "continued-after-alloc-failure",
+                        0,
+                        format!("allocation request {:?} returned null and execution carried on to a normal return ({} events)", c.case.alloc.fail_at, f.get(1).unwrap_or(&"?")),
+                    );
+                }
+                _ => v.fail("error", 0, format!("child reported {:?}", p)),
+            }
+        }
+        ChildEnd::Died { sig, status } => {
+            v.bump("fired_alloc_failure");
+            let name = sig.as_deref().and_then(|s| s.split_whitespace().next()).unwrap_or("");
+            if name == "ABRT" {
+                v.bump("ended_by_abort");
+            } else {
+                let class = crate::parent::crash_class(sig.as_deref(), Some(&status.to_string()));
+                v.fail(
+                    &class,
+                    0,
+                    format!("allocation request {:?} returned null and the process died by {:?} instead of the allocation-failure abort", c.case.alloc.fail_at, sig),
+                );
+            }
+        }
+        ChildEnd::Hang => v.fail("hang", 0, "no result within 10 s after an allocation failure".into()),
     }
 }
